@@ -66,11 +66,22 @@ def _cfg_constants(c):
     return "\n".join(lines) + "\n"
 
 
+# the refinement link DecLoop -> DecLoopInd (baseline variant only): invariants and action property of MC_DecLoop
+DEC_REFINEMENT = ["ProjDecIndInv", "ProjDecInit", "RefinesDecLoopInd"]
+# the same for the encryptor (conforming source, baseline variant): MC_EncLoop
+ENC_REFINEMENT = ["ProjIndInv", "ProjEncInit", "RefinesEncLoopInd"]
+_PROPERTIES = {"RefinesDecLoopInd", "RefinesEncLoopInd"}
+
+
 def mc_cfg(consts, invariants, fair=True, view=True, termination=True):
     s = "SPECIFICATION %s\n" % ("FairSpec" if fair else "Spec")
     s += _cfg_constants(consts)
+    if "RefinesDecLoopInd" in invariants:
+        s += "  Lens <- [DecLoopInd] MCLens\n"
+    if "RefinesEncLoopInd" in invariants:
+        s += "  Lens <- [EncLoopInd] MCLens\n"
     for i in invariants:
-        s += "INVARIANT %s\n" % i
+        s += "%s %s\n" % ("PROPERTY" if i in _PROPERTIES else "INVARIANT", i)
     if termination and fair:
         s += "PROPERTY Termination\n"
     if view:
@@ -141,7 +152,7 @@ def conv_enc(raw, api="chunks", aad="key", cs=None, kseed=1, pseed=1, sid=""):
             "id": sid, "exp": {"res": raw["exp"]["res"], "chunks": [c * scale for c in raw["exp"]["chunks"]]}}
 
 
-SRC_MODEL = {"Src322": [[2, 2, 1], [2, 1]], "Src21": [[2, 1], [1]], "Src1": [[2], [1]], "Src0": [[0], [2, 1]]}
+SRC_MODEL = {"Src322": [[2, 2, 1], [2, 1]], "Src21": [[2, 1], [1]], "Src1": [[2], [1]], "Src0": [[0], [2, 1]], "Src22": [[2, 2], [2]]}
 
 
 def conv_dec(raw, srcname, api="chunks", aad="key", sid="", variants=1):
